@@ -108,6 +108,12 @@ theorem ds_read_untruncated_partial (chunk : Nat) (hc : 0 < chunk) (rs : List Re
       evs.map (·.2) = (rs.drop j).take chunk :=
   Ebu.Log.ds_read_untruncated_partial chunk hc rs h j hj limit hl
 
+/-- KNOWN FINDING (C10): offsets are opaque strings whose format the event store defines, but the SQLite store keeps
+saved positions as integers: the memory store's offset of record 3 is accepted and comes back as `"3"` -/
+theorem sqlite_saved_offset_not_verbatim :
+    ((Sql.save {} "s" (fmt20 3)).map (fun s => s.load "s")) = some (decimal 3) ∧ decimal 3 ≠ fmt20 3 :=
+  Ebu.Log.sqlite_saved_offset_not_verbatim 
+
 /-- concurrent appenders, every schedule (M2p read as "threads calling MemoryStore.Append": reserve-and-insert is
 one step because both happen under the store's write lock, see `memory_store_locked` below): offsets are handed out
 1, 2, 3, … in log order, one record per append, and without the lock two appenders can get the same offset -/
